@@ -296,6 +296,37 @@ func (g *guardEngine) minLenByConstruction(x ssa.Value, depth int) int64 {
 	case *ssa.Parameter:
 		return g.paramMinLen(v, depth)
 	}
+	// the result of a module function every return of which hands back a value of known
+	// minimum length (cmd := input[:1]; … return cmd, …)
+	{
+		var call *ssa.Call
+		idx := 0
+		switch v := x.(type) {
+		case *ssa.Extract:
+			call, _ = v.Tuple.(*ssa.Call)
+			idx = v.Index
+		case *ssa.Call:
+			call = v
+		}
+		if call != nil && depth < 3 {
+			if h := call.Call.StaticCallee(); h != nil && fnInModule(h) && len(h.Blocks) > 0 {
+				min := int64(-1)
+				for _, b := range h.Blocks {
+					ret, ok := b.Instrs[len(b.Instrs)-1].(*ssa.Return)
+					if !ok || idx >= len(ret.Results) {
+						continue
+					}
+					m := g.minLenByConstruction(ret.Results[idx], depth+1)
+					if min < 0 || m < min {
+						min = m
+					}
+				}
+				if min > 0 {
+					return min
+				}
+			}
+		}
+	}
 	// a slice whose length is a known constant (made, cut, or returned by a helper with it)
 	switch x.(type) {
 	case *ssa.Extract, *ssa.Call, *ssa.Slice:
